@@ -467,6 +467,12 @@ class Interp:
                 if name in self.bodies:
                     return self.eval_const_body(name)
             raise Inconclusive('cannot resolve promoted constant ' + text)
+        m = re.fullmatch(r'(.*?)((?:::\{closure#\d+\})+)::(\w+)', text, re.S)
+        if m:
+            # item declared inside a closure / async body (e.g. tokio::select!'s `BRANCHES`)
+            fn = self.resolve(m.group(1))
+            if fn is not None and (fn + m.group(2) + '::' + m.group(3)) in self.bodies:
+                return self.eval_const_body(fn + m.group(2) + '::' + m.group(3))
         r = self.resolve(text)
         if r and self.bodies[r].kind in ('const', 'static'):
             return self.eval_const_body(r)
@@ -477,6 +483,9 @@ class Interp:
             return Extern(text)
         # enum unit variant of a known ADT:  path::Variant
         p = mir.strip_generics(text)
+        so = self._select_out(p)
+        if so is not None:
+            return Adt(so[0], so[1], ())
         if '::' in p:
             ty, vname = p.rsplit('::', 1)
             if self.adts.has(ty):
@@ -566,7 +575,7 @@ class Interp:
                     ops = None
             if ops is None:
                 ops = [o for _, o in rv[2]]
-            return Adt(rv[1], 0, [self.eval_operand(o, fr) for o in ops])
+            return Adt(self.closure_type(rv[1]), 0, [self.eval_operand(o, fr) for o in ops])
         if k == 'len':
             v = self.read_place(rv[1], fr)
             return usize(len(v.fields))
@@ -581,7 +590,8 @@ class Interp:
                 return Int(vs[v.variant][2], 64, True)
             except KeyError:
                 t = v.ty
-                if '::' in t and t.rsplit('::', 1)[0].split('::')[-1][:1].isupper() and t.rsplit('::', 1)[1][:1].isupper():
+                last = t.rsplit('::', 1)[1] if '::' in t else ''
+                if '::' in t and t.rsplit('::', 1)[0].split('::')[-1][:1].isupper() and (last[:1].isupper() or re.fullmatch(r'_\d+', last)):
                     # `Enum::Variant` of an enum whose layout is unknown: never guess its discriminant
                     raise Inconclusive('discriminant of an enum without a known layout: ' + t)
                 return Int(v.variant, 64, True)
@@ -606,10 +616,31 @@ class Interp:
         if 'named' in fields:
             vals = {n: self.eval_operand(o, fr) for n, o in fields['named']}
             return Adt(ty, vi, [vals[n] for n in names])
+        if names is None:
+            return Adt(ty, vi, [self.eval_operand(o, fr) for o in fields['pos']])
         return Adt(ty, vi, [self.eval_operand(o, fr) for o in fields['pos']])
+
+    def _select_out(self, p):
+        """tokio::select!'s local `enum Out { _0(..), _1(..), .., Disabled }`: (type, variant index) or None"""
+        m = re.fullmatch(r'(.*::__tokio_select_util::Out)::(?:_(\d+)|(Disabled))', p, re.S)
+        if not m:
+            return None
+        if m.group(2) is not None:
+            return (m.group(1), int(m.group(2)))
+        fn = self.resolve(m.group(1).split('::{closure#', 1)[0])
+        n = 0
+        if fn is not None:
+            pre = fn + m.group(1)[len(m.group(1).split('::{closure#', 1)[0]):] + '::_'
+            n = len({name for name in self.bodies if name.startswith(pre)})
+        if n == 0:
+            raise Inconclusive('cannot size tokio::select! output enum ' + p)
+        return (m.group(1), n)
 
     def _aggregate_info(self, path, dest_ty):
         p = mir.strip_generics(path)
+        so = self._select_out(p)
+        if so is not None:
+            return (so[0], so[1], None)
         cur = getattr(self, 'cur_body', None)
         if cur is not None:
             for pre in getattr(self, 'dep_crates', ()):
@@ -1043,15 +1074,35 @@ class Interp:
             return self.call_body(body, [f] + list(args))
         raise Inconclusive('call of value %r' % (f,))
 
-    def closure_body(self, span):
+    def _closure_index(self):
         if self.closure_bodies is None:
             self.closure_bodies = {}
+            self.closure_dups = {}
             for name, b in self.bodies.items():
                 if b.args and '{closure#' in name or '{closure@' in (b.args[0][1] if b.args else ''):
                     t = b.args[0][1] if b.args else ''
                     m = re.search(r'(\{(?:closure|coroutine|async [^{}]*)@?[^{}]*\})', t)
                     if m:
                         self.closure_bodies.setdefault(m.group(1), b)
+                        self.closure_dups.setdefault(m.group(1), []).append(b)
+
+    def closure_type(self, span):
+        """run-time type of a closure created in the current body: the span, plus the body name when several closures
+        share one span (closures written by a macro such as tokio::select!)"""
+        self._closure_index()
+        dups = self.closure_dups.get(span, ())
+        if len(dups) > 1 and getattr(self, 'cur_body', None) is not None:
+            pre = self.cur_body.name + '::{closure#'
+            mine = [b for b in dups if b.name.startswith(pre) and '::' not in b.name[len(pre):]]
+            if len(mine) == 1:
+                return span + '@@' + mine[0].name
+            raise Inconclusive('ambiguous macro-generated closure %s in %s' % (span, self.cur_body.name))
+        return span
+
+    def closure_body(self, span):
+        self._closure_index()
+        if '@@' in span:
+            return self.bodies[span.split('@@', 1)[1]]
         b = self.closure_bodies.get(span)
         if b is None and span.startswith('{coroutine@'):
             # `async {}` blocks: the value is printed as {coroutine@span}, the body's receiver as {async block@span}
